@@ -501,7 +501,7 @@ def calc_cyc_amp_gm_arrays_w_power_law(values0, values1, n_cyc, b):
     """
     csr_n_series0 = calc_cyc_amp_array_w_power_law(values0, n_cyc=n_cyc, b=b)
     csr_n_series1 = calc_cyc_amp_array_w_power_law(values1, n_cyc=n_cyc, b=b)
-    csr_n_series = np.sqrt(csr_n_series0 * csr_n_series1)
+    csr_n_series = np.sqrt(csr_n_series0) * np.sqrt(csr_n_series1)
     return csr_n_series
 
 
